@@ -13,7 +13,7 @@ Go facts kept literal:
   current length.
 * a value that is not (map, map) or (slice, slice) overwrites.
 -/
-namespace PebblesVerif.Merge
+namespace PebblesVerif.ResultMerge
 open PebblesVerif
 
 /-- a Go run-time panic (message) -/
@@ -154,4 +154,4 @@ def leavesOpt : Option J → List J
   | none => []
   | some v => leaves v
 
-end PebblesVerif.Merge
+end PebblesVerif.ResultMerge
